@@ -140,6 +140,10 @@ static void scen_run(void)
                 if (!expect)
                         CHK(C09, W.units == 1 && W.u_len == 5 && G_pay[0] == 'E', "write form with neither handler nor variable is answered with ERROR");
         }
+        /* the request type is also visible in the answer: write and run requests are answered by a result code alone
+         * (handlers return terminal codes here); a data line means the line was served as READ or TEST instead */
+        if (sel >= 0 && (kind == CAT_CMD_TYPE_WRITE || kind == CAT_CMD_TYPE_RUN))
+                CHK(C02, W.units == 1 && !W.malformed, "a write / run request was answered with a data line (served as another request type)");
         if (sel >= 0 && kind == CAT_CMD_TYPE_READ && G_cmd[sel].var_num == 0) {
                 int expect = !(S.fl[sel] & F_ONLY_TEST) && (S.hm[sel] & H_READ);
                 /* the name must fit: "<name>=" + NUL within the command half */
